@@ -204,6 +204,26 @@ class ScenarioCheck:
             elif crash: viol_crash.append((i, r, crash))
             elif mism: viol_mism.append((i, r, mism))
 
+        # a per-scenario timeout under machine load is not a hang: re-run such scenarios alone, with
+        # six times the budget, before believing them (a genuine livelock still times out)
+        reran = 0
+        if viol_crash:
+            keep = []
+            for (i, r, crash) in viol_crash:
+                if "timeout" in crash or crash == "no trace":
+                    reran += 1
+                    rr = run_batch(exe, self.mode if lean_ok else None, [r["scn"]], wd, "rerun%d" % reran, timeout_s=120)
+                    x = list(rr.values())[0] if rr else None
+                    if x is not None:
+                        m2, f2, c2 = self.evaluate(x)
+                        if not c2:
+                            results[i] = x
+                            if f2: viol_spec.append((i, x, f2))
+                            elif m2: viol_mism.append((i, x, m2))
+                            continue
+                keep.append((i, r, crash))
+            viol_crash = keep
+
         for kf in open_kfs:
             if kf["id"] in known_hits:
                 print("KNOWN-FINDING: property=%s %s" % (prop, kf["what"]))
